@@ -320,13 +320,15 @@ inductive KeyVal where
   | key (k : Key)
   deriving Repr, DecidableEq
 
-/-- the `keyring` argument of `from_wire`: `None`/`True`, `False`, a `Key`, a `dict` (callables are outside) -/
+/-- the `keyring` argument of `from_wire` / `use_tsig`: `None`/`True`, `False`, a `Key`, a `dict`
+(name ↦ `bytes` secret or `Key`), or a callable `(message, name) ↦ Key | None` (modelled as a function of the
+name; what it does with the message — GSS-TSIG negotiation — is outside the model) -/
 inductive Keyring where
   | absent
   | noValidate
   | key (k : Key)
   | dict (entries : List (Name × KeyVal))
-  deriving Repr
+  | callable (f : Name → Option Key)
 
 /-- what the section loop has found -/
 structure Found where
@@ -352,6 +354,33 @@ def resolveKey (kr : Keyring) (owner : Name) (rd : Rdata) : Except Err (Option K
     | none => .error .unknownTSIGKey
     | some (_, .secret s) => .ok (some { name := owner, secret := s, algorithm := rd.algorithm })
     | some (_, .key k) => .ok (some k)
+  | .callable f =>
+    match f owner with
+    | none => .error .unknownTSIGKey
+    | some k => .ok (some k)
+
+/-- key and TSIG owner name chosen by `Message.use_tsig(keyring, keyname, algorithm=…)`; `none` where the code
+raises (missing dict entry, callable returning nothing usable, no keyring) -/
+def useTsig (kr : Keyring) (keyname : Option Name) (algorithm : Name) : Option (Key × Name) :=
+  match kr with
+  | .key k => some (k, k.name)
+  | .callable f =>
+    match keyname with
+    | none => none
+    | some n => (f n).map fun k => (k, n)
+  | .dict es =>
+    let name? : Option Name := match keyname with
+      | some n => some n
+      | none => es.head?.map (fun (e : Name × KeyVal) => e.1)
+    match name? with
+    | none => none
+    | some n =>
+      match es.find? (fun (e : Name × KeyVal) => nameEq e.1 n) with
+      | none => none
+      | some (_, .secret s) => some ({ name := n, secret := s, algorithm := algorithm }, n)
+      | some (_, .key k) => some (k, n)
+  | .absent => none
+  | .noValidate => none
 
 /-- one record of `_get_section` (`sec` 1 answer, 2 authority, 3 additional; `i` its index, `count` the section count) -/
 def readRR (V : Verifier) (tbl : List AlgEntry) (ttlStrict : Bool) (w : Bytes) (kr : Keyring) (now : Nat)
